@@ -47,11 +47,14 @@ CLAIMED = {
     "C07": dict(ref="DESIGN.md §3 C07", note=NOTE + "; partial: lifted closures of Run only; framing, exit codes and interactive accept are outside",
                 text="The streaming-filter pusher and both item builders of Run are lifted verbatim from the current source and executed on symbolic records: every printed "
                      "line must be an original input record, and AsString must return the input bytes under --with-nth and --header-lines."),
+    "C19": dict(ref="DESIGN.md §3 C19", note=NOTE + "; partial: the filter callback only; fastwalk and the file system are outside",
+                text="The walker callback, lifted verbatim from readFiles, is decided for every path inside the bound, file or directory, under all option "
+                     "combinations and a skip list: pruned exactly when documented, listed with the documented shape. Traversal and symlinks are NOT claimed."),
 }
 PENDING = "check not built yet in this session (planned, see DESIGN.md §3)"
 NA = {
        "C09": PENDING,
-       "C19": PENDING,
+       
     "C14": "terminal modes, child processes, signals and the goroutine/channel render loop are OS effects and schedules, not a bounded computation the SSA→SMT encoder can make symbolic (DESIGN.md §5)",
     "C15": "relation between the whole Terminal state and the byte stream written through tui.Window; thousands of lines of drawing code on uniseg tables with no leaf whose correctness implies the property (DESIGN.md §5)",
     "C17": "option/bind parsing is decided inside Go's regexp engine (a 400-character alternation and regexes compiled from input); a symbolic regexp is out of reach and contract stubs would create unreal states (DESIGN.md §5)",
